@@ -160,8 +160,9 @@ def tblOf (idx dl tab : String) : TrieWalk.Tbl String :=
 def walkFuel (t : TrieWalk.Tbl String) : Nat := 16 * t.n + 2
 
 def stdPred (n syl : Nat) : Bool := n == syl
-/-- `FuzzyPartialPrefix`: `n != 0 && Syllable::try_from(n).starts_with(syl)` -/
-def fuzzyPred (n syl : Nat) : Bool := n != 0 && startsWith n syl
+/-- `FuzzyPartialPrefix`: `if n == 0 { false } else if let Ok(s) = Syllable::try_from(n) { s.starts_with(syl) } else { false }`
+    (`try_from` = `validCode` since the repair of C13's F47: a node syllable that is not a syllable matches nothing) -/
+def fuzzyPred (n syl : Nat) : Bool := n != 0 && validCode n && startsWith n syl
 
 end Legacy
 
